@@ -177,7 +177,8 @@ def get_parities_from_measurements(
             parity2 = check_parity_of_vector(bitstrings_vector, term2.qubits)
 
             # 0 if parities are equal, 1 otherwise
-            equal_parities = np.abs(parity1 - parity2)
+            # (compared rather than subtracted: parities of unsigned bits are unsigned)
+            equal_parities = (parity1 != parity2).astype(int)
 
             # Counts of bitstrings where parity is equal
             correlations[0][term1_index, term2_index][0] += (
